@@ -871,6 +871,38 @@ fn replay_string(input: &Value) -> R {
 	Ok((ok, json!({"accepted": accepted, "bytes": der::hex(&bytes)}), json!({"accepted": want_ok, "bytes": der::hex(&want_bytes)})))
 }
 
+/// byte-level constructors: accept exactly the well-formed encodings (prefixes of the given bytes are tried too)
+fn replay_string_bytes(input: &Value) -> R {
+	let all: Vec<u8> = input["bytes"].as_array().unwrap_or(&vec![]).iter().filter_map(|x| x.as_u64()).map(|x| x as u8).collect();
+	let ty = input["type"].as_str().unwrap_or("");
+	let mut notes = vec![];
+	let mut ok = true;
+	for n in 0..=all.len() {
+		let b = &all[..n];
+		let (got, want) = match ty {
+			"bmp" => {
+				let want = n % 2 == 0
+					&& b.chunks(2).all(|c| {
+						let u = u16::from_be_bytes([c[0], c[1]]);
+						!(0xD800..=0xDFFF).contains(&u) && u != 0xFFFF
+					});
+				(string::BmpString::from_utf16be(b.to_vec()).map(|s| s.as_bytes().to_vec()), want)
+			},
+			"universal" => {
+				let want = n % 4 == 0
+					&& b.chunks(4).all(|c| char::from_u32(u32::from_be_bytes([c[0], c[1], c[2], c[3]])).is_some());
+				(string::UniversalString::from_utf32be(b.to_vec()).map(|s| s.as_bytes().to_vec()), want)
+			},
+			_ => return Err("unknown string type".into()),
+		};
+		if got.is_ok() != want || (want && got.as_ref().ok().map(|x| x.as_slice()) != Some(b)) {
+			ok = false;
+			notes.push(format!("{}: accepted={} required={}", der::hex(b), got.is_ok(), want));
+		}
+	}
+	Ok((ok, json!({"notes": notes}), json!("accepted exactly when well formed, stored unchanged")))
+}
+
 fn replay_cidr(input: &Value) -> R {
 	let addr: Vec<u8> = input["addr"].as_array().unwrap_or(&vec![]).iter().filter_map(|x| x.as_u64()).map(|x| x as u8).collect();
 	let prefix = input["prefix"].as_u64().unwrap_or(0) as u8;
@@ -929,6 +961,7 @@ fn main() {
 		"import_repeated_dn" => replay_import_repeated_dn(&input),
 		"string" => replay_string(&input),
 		"cidr" => replay_cidr(&input),
+		"string_bytes" => replay_string_bytes(&input),
 		"csr_refusal" => replay_csr_refusal(&input),
 		_ => Err(format!("no native replayer for kind '{}'", kind)),
 	};
